@@ -33,3 +33,101 @@ pub fn mini() -> Spec {
         ],
     }
 }
+
+/// Tree-rich interface: the same mnemonic at several levels, optional nodes, common commands,
+/// payload carriers at every argument position, sync and async handlers (C02, C06, C08-C11, C13).
+pub fn fx() -> Spec {
+    use RetTy as R;
+    use Ty::*;
+    Spec {
+        name: "fx".into(),
+        standard: true,
+        errors: true,
+        decls: vec![
+            d("*RST", &[], R::None, false),
+            d("*IDN?", &[], R::Str, false),
+            d("*OPC?", &[], R::Int(U8), false),
+            d("*WAI", &[], R::None, true),
+            d("A", &[I32], R::None, false),
+            d("A?", &[], R::Int(I32), false),
+            d("B", &[Str], R::None, false),
+            d("B?", &[Str], R::Str, false),
+            d("C", &[Bytes], R::None, false),
+            d("SYSTem:A", &[I32], R::None, true),
+            d("SYSTem:A?", &[], R::Int(I64), false),
+            d("SYSTem:B", &[Str, Bytes], R::None, false),
+            d("SYSTem:C?", &[Bytes], R::Arb, true),
+            d("SYSTem:SUB:A", &[I32], R::None, false),
+            d("SYSTem:SUB:A?", &[], R::Int(U8), true),
+            d("SYSTem:SUB:B", &[Bytes, Str], R::None, false),
+            d("SYSTem:SUB:[OPT]:D", &[Bool], R::None, false),
+            d("SYSTem:SUB:[OPT]:D?", &[], R::Bool, false),
+            d("[SENSe]:VOLTage:[DC]:RANGe", &[F64], R::None, false),
+            d("[SENSe]:VOLTage:[DC]:RANGe?", &[], R::Int(I16), false),
+            d("[SENSe]:VOLTage:A", &[I32], R::None, false),
+            d("PAY:S10", &[Str, Str, Str, Str, Str, Str, Str, Str, Str, Str], R::None, false),
+            d("PAY:B10", &[Bytes, Bytes, Bytes, Bytes, Bytes, Bytes, Bytes, Bytes, Bytes, Bytes], R::None, false),
+            d("PAY:MIX", &[U8, Str, Bytes, Bool, Str, Bytes, F64, Str, Bytes, I16], R::None, true),
+            d("PAY:ECHO?", &[Str, Bytes], R::Tup(vec![R::Str, R::Arb]), false),
+            d("MEASure:TEMPerature?", &[], R::HStr, false),
+            d("TeST:CHan1_x:VALue", &[U16], R::None, false),
+            d("TeST:CHan1_x:VALue?", &[], R::Tup(vec![R::Int(U16), R::Bool]), true),
+        ],
+    }
+}
+
+/// Every parameter type and every response type (C03, C04).
+pub fn ty() -> Spec {
+    use RetTy as R;
+    use Ty::*;
+    let mut decls = Vec::new();
+    for t in crate::spec::ALL_TYS {
+        let name = match t {
+            Str => "STR".to_string(),
+            Bytes => "BYTES".to_string(),
+            other => other.rust().to_uppercase(),
+        };
+        decls.push(d(&format!("ARG:{}", name), &[t], R::None, false));
+    }
+    decls.push(d("ARG:M0", &[], R::None, false));
+    decls.push(d("ARG:M2", &[U8, Str], R::None, false));
+    decls.push(d("ARG:M3", &[I16, F32, Bool], R::None, true));
+    decls.push(d("ARG:M5", &[U64, I8, Bytes, F64, Str], R::None, false));
+    decls.push(d("ARG:M10", &[I32, U8, Bool, Str, F32, Bytes, I64, U16, F64, Isize], R::None, false));
+    decls.push(d("ARG:U10", &[U8, U8, U8, U8, U8, U8, U8, U8, U8, U8], R::None, false));
+    decls.push(d("ARG:Q1?", &[U32], R::Int(U32), false));
+    decls.push(d("ARG:Q3?", &[Str, Bool, I64], R::Bool, true));
+    for t in crate::spec::INT_TYS {
+        decls.push(d(&format!("RET:{}?", t.rust().to_uppercase()), &[], R::Int(t), false));
+    }
+    decls.push(d("RET:F32?", &[], R::F32, false));
+    decls.push(d("RET:F64?", &[], R::F64, true));
+    decls.push(d("RET:BOOL?", &[], R::Bool, false));
+    decls.push(d("RET:STR?", &[], R::Str, false));
+    decls.push(d("RET:HSTR?", &[], R::HStr, false));
+    decls.push(d("RET:STRING?", &[], R::SString, true));
+    decls.push(d("RET:ARB?", &[], R::Arb, false));
+    decls.push(d("RET:CHARS?", &[], R::Chars, false));
+    decls.push(d("RET:ERR?", &[], R::Err, false));
+    decls.push(d("RET:T2?", &[], R::Tup(vec![R::Int(U8), R::Str]), false));
+    decls.push(d("RET:T3?", &[], R::Tup(vec![R::Int(I64), R::F64, R::Bool]), false));
+    decls.push(d("RET:T4?", &[], R::Tup(vec![R::Chars, R::Arb, R::Str, R::Int(I8)]), true));
+    decls.push(d("RET:HVI?", &[], R::HVec(Box::new(R::Int(I32))), false));
+    decls.push(d("RET:HVS?", &[], R::HVec(Box::new(R::Str)), false));
+    decls.push(d("RET:HVT?", &[], R::HVec(Box::new(R::Tup(vec![R::Int(U8), R::Str]))), false));
+    decls.push(d("RET:HVF?", &[], R::HVec(Box::new(R::F32)), false));
+    decls.push(d("RET:SLI?", &[], R::Slice(Box::new(R::Int(I32))), false));
+    decls.push(d("RET:SLF?", &[], R::Slice(Box::new(R::F64)), false));
+    decls.push(d("RET:SLB?", &[], R::Slice(Box::new(R::Bool)), false));
+    decls.push(d("RET:SLU?", &[], R::Slice(Box::new(R::Int(U8))), true));
+    decls.push(d("RET:TV?", &[], R::Tup(vec![R::HVec(Box::new(R::Int(I16))), R::Bool]), false));
+    decls.push(d("RET:TT?", &[], R::Tup(vec![R::Tup(vec![R::Int(U8), R::Bool]), R::F64]), false));
+    decls.push(d("RET:NONE", &[], R::None, false));
+    decls.push(d("RET:CMD", &[U8], R::None, true));
+    Spec {
+        name: "ty".into(),
+        standard: true,
+        errors: true,
+        decls,
+    }
+}
